@@ -1,4 +1,5 @@
 import GramModel.Lemmas.Print
+import GramModel.Lemmas.PrintDerives
 
 /-!
 # C16 — printed terms read back as the same term (the printer side)
@@ -232,3 +233,145 @@ example : printTm exNm (.app (.var 1 7) (.var 3 9)) = printTm exNm (.app (.var 1
 example : printTm exNm (.pi 3 false .int (.var 3 0)) ≠ printTm exNm (.pi 3 false .int (.var 3 1)) := by decide
 
 end examples
+
+/-! ## What is printed is a sentence of `grammar.y` (`Lemmas/PrintDerives.lean`)
+
+`PrintDerives.printItems nm t` is the printed text as a list of lexemes, each with its token kind
+(`TokKind`) and a flag "followed by one space", defined by the same case analysis as `printTm`;
+`printKinds` are the kinds, `printToks` the kinds as terminals of `grammar.y`
+(`Generated.grammarProductions`, regenerated from `/repo/grammar.y` on every run; derivability
+`Derives` as in `Props/C07.lean`). -/
+
+section sentence
+open PrintDerives
+
+/-- **Token-level reading of the printed text**: the text is the concatenation of the lexemes of
+`printItems`, with a single space exactly after the lexemes flagged so (for terms and for the
+definitions of a group), and the terminals are the kinds of these lexemes. -/
+def C16_print_items_stmt : Prop :=
+  (∀ (nm : Name → List Char) (t : Tm), printTm nm t = flatten (printItems nm t)) ∧
+  (∀ (nm : Name → List Char) (ds : Defs), printDefs nm ds = flatten (printDefsItems nm ds)) ∧
+  (∀ (nm : Name → List Char) (t : Tm), printToks nm t = (printKinds nm t).map kindTerminal) ∧
+  (∀ k : TokKind, kindTerminal k ∈ Generated.grammarTerminals)
+theorem C16_print_items : C16_print_items_stmt :=
+  ⟨printTm_eq_flatten, printDefs_eq_flatten, printToks_eq_map, kindTerminal_mem⟩
+
+/-- (First formulation, **refuted** below.)  Whatever the term, the printed token sequence is a
+sentence of the start symbol of the grammar. -/
+def C16_print_derives_unrestricted : Prop :=
+  ∀ (nm : Name → List Char) (t : Tm), Derives Generated.grammarProductions "term" (printToks nm t)
+
+/-- PENDING `C16_print_derives_unrestricted` is FALSE: the implicit non-dependent function type
+`{int} -> int` (finding KF-print-implicit) is printed in a form `grammar.y` does not have. -/
+theorem C16_print_derives_refuted : ¬ C16_print_derives_unrestricted :=
+  fun h => implicit_arrow_not_derivable (fun _ => []) 0 "term" (h (fun _ => []) (.pi 0 true .int .int))
+
+/-- **What the printer prints is a sentence of the published grammar**: for every term without an
+implicit non-dependent function type (`{A} -> B`) and without a negative integer literal, the token
+kinds of the printed text form a sentence of the start symbol `term` of `grammar.y`; moreover the
+operand positions are filled the way the grammar wants them: what `group` prints is an `atom`, what
+`annotation` prints a `jumbo_term`, the head of an application / the domain of `->` a `small_term`.
+No hypothesis on names (an identifier token is an `IDENTIFIER` whatever its text), none on holes
+(`_` is an identifier), none on the number of definitions of a group (an empty group prints as its
+body). -/
+def C16_print_derives_stmt : Prop :=
+  ∀ (nm : Name → List Char) (t : Tm), noImplicitArrow t = true → noNegLit t = true →
+    Derives Generated.grammarProductions "term" (printToks nm t) ∧
+    Derives Generated.grammarProductions "atom" (groupToks nm t) ∧
+    Derives Generated.grammarProductions "jumbo_term" (annotToks nm t) ∧
+    Derives Generated.grammarProductions "small_term" (headToks nm t)
+theorem C16_print_derives : C16_print_derives_stmt := fun nm t h1 h2 =>
+  ⟨print_derives nm t h1 h2, group_derives nm t h1 h2, annot_derives nm t h1 h2,
+   head_derives nm t h1 h2⟩
+
+/-- **The first exclusion is necessary** (KF-print-implicit): in every sentence of every nonterminal
+of `grammar.y` a `{` is followed by an identifier; the printed form of `{int} -> int` violates this,
+as does every implicit non-dependent function type whose domain does not start with an identifier,
+so no nonterminal derives it. -/
+def C16_implicit_arrow_not_sentence_stmt : Prop :=
+  (∀ (A : String) (w : List String), Derives Generated.grammarProductions A w → lcOk w = true) ∧
+  (∀ (nm : Name → List Char) (x : Name) (A : String),
+    ¬ Derives Generated.grammarProductions A (printToks nm (.pi x true .int .int))) ∧
+  (∀ (nm : Name → List Char) (x : Name) (d c : Tm), freeAt c 0 = false →
+    (∀ r, printToks nm d ≠ "IDENTIFIER" :: r) → ∀ A : String,
+    ¬ Derives Generated.grammarProductions A (printToks nm (.pi x true d c)))
+theorem C16_implicit_arrow_not_sentence : C16_implicit_arrow_not_sentence_stmt :=
+  ⟨fun _ _ h => derives_lcOk h, implicit_arrow_not_derivable, fun nm x d c hf hd A h => by
+    have h1 := derives_lcOk h
+    rw [implicit_arrow_lcOk_false nm x d c hf hd] at h1
+    exact absurd h1 (by decide)⟩
+
+/-- **The second exclusion is a defect of the printer** (new finding KF-print-negative-literal):
+`group` treats every integer literal as atomic, but a negative one is printed with a leading `-`
+(two tokens).  The application of an atomic `f` to the literal `-(n+1)` and the difference
+`f - (n+1)` are printed as the *same* token sequence (same kinds, same payloads; the texts `f -1` and
+`f - 1` differ by one space), although they are different terms.  Negative literals do not occur in
+parsed programs (`-1` is the negation of `1`) but the evaluator and the normalizer create them:
+`gram run` on `((x : int) => (y : int -> int) => y x) (0 - 1)` prints `(y : int -> int) => y -1`. -/
+def C16_negative_literal_ambiguous_stmt : Prop :=
+  ∀ (nm : Name → List Char) (f : Tm) (n : Nat), atomic f = true →
+    printKinds nm (.app f (.lit (.negSucc n))) = printKinds nm (.bin .diff f (.lit (.ofNat (n + 1))))
+    ∧ Tm.app f (.lit (.negSucc n)) ≠ .bin .diff f (.lit (.ofNat (n + 1)))
+theorem C16_negative_literal_ambiguous : C16_negative_literal_ambiguous_stmt :=
+  fun nm f n hf => ⟨negative_literal_ambiguous nm f n hf, fun e => by cases e⟩
+
+/-- … and the second exclusion is **necessary for derivability** as well: no sentence of `term`
+starts with `MINUS INTEGER_LITERAL THIN_ARROW`, so a non-dependent function type whose domain is a
+negative literal (`-1 -> B`) is not a sentence.  (`gram run` on the well-typed
+`((x : int) => (q : int -> type) => (z : q x -> q x) => z) (0 - 1)` prints
+`(q : int -> type) => (z : q -1 -> q -1) => z`, which `gram check` rejects with a syntax error.) -/
+def C16_negative_literal_not_sentence_stmt : Prop :=
+  (∀ r : List String, ¬ Derives Generated.grammarProductions "term"
+    ("MINUS" :: "INTEGER_LITERAL" :: "THIN_ARROW" :: r)) ∧
+  (∀ (nm : Name → List Char) (x : Name) (n : Nat) (c : Tm), freeAt c 0 = false →
+    ¬ Derives Generated.grammarProductions "term" (printToks nm (.pi x false (.lit (.negSucc n)) c)))
+theorem C16_negative_literal_not_sentence : C16_negative_literal_not_sentence_stmt :=
+  ⟨minus_literal_arrow_not_derivable, negative_literal_domain_not_derivable⟩
+
+/-! ### Non-vacuity -/
+
+-- a lambda whose annotation is a group (parenthesised), the definition's annotation a hole
+example : printItems exNm (.lam 3 false (.letg (.cons 4 (.hole 0 0) .int .nil) (.var 4 0)) (.var 3 0)) =
+    [tk ['('] .leftParen, tkS ['x'] (.identifier ['x']), tkS [':'] .colon,
+     tk ['('] .leftParen, tkS ['y'] (.identifier ['y']), tkS [':'] .colon, tkS ['_'] (.identifier ['_']),
+     tkS ['='] .equals, tk ['i', 'n', 't'] .integer, tkS [';'] .terminatorSemicolon,
+     tk ['y'] (.identifier ['y']), tk [')'] .rightParen,
+     tkS [')'] .rightParen, tkS ['=', '>'] .thickArrow, tk ['x'] (.identifier ['x'])] := by decide
+example : flatten (printItems exNm (.lam 3 false (.letg (.cons 4 (.hole 0 0) .int .nil) (.var 4 0)) (.var 3 0)))
+    = "(x : (y : _ = int; y)) => x".toList := by decide
+-- an application chain with a parenthesised argument: `f (g x) y`
+example : printToks exNm (.app (.app (.var 1 2) (.app (.var 2 1) (.var 3 0))) (.var 4 3)) =
+    ["IDENTIFIER", "LEFT_PAREN", "IDENTIFIER", "IDENTIFIER", "RIGHT_PAREN", "IDENTIFIER"] := by decide
+example : (printItems exNm (.app (.app (.var 1 2) (.app (.var 2 1) (.var 3 0))) (.var 4 3))).map (·.2.2) =
+    [true, false, true, false, true, false] := by decide
+-- a dependent function type and an `if`: `(x : type) -> if true then x else int`
+example : printToks exNm (.pi 3 false .type (.ite .tt (.var 3 0) .int)) =
+    ["LEFT_PAREN", "IDENTIFIER", "COLON", "TYPE", "RIGHT_PAREN", "THIN_ARROW",
+     "IF", "TRUE", "THEN", "IDENTIFIER", "ELSE", "INTEGER"] := by decide
+example : flatten (printItems exNm (.pi 3 false .type (.ite .tt (.var 3 0) .int)))
+    = "(x : type) -> if true then x else int".toList := by decide
+-- the hypotheses of `C16_print_derives` hold of these terms
+example : Derives Generated.grammarProductions "term"
+    (printToks exNm (.lam 3 false (.letg (.cons 4 (.hole 0 0) .int .nil) (.var 4 0)) (.var 3 0))) :=
+  (C16_print_derives exNm _ (by decide) (by decide)).1
+example : Derives Generated.grammarProductions "term"
+    ["IDENTIFIER", "LEFT_PAREN", "IDENTIFIER", "IDENTIFIER", "RIGHT_PAREN", "IDENTIFIER"] :=
+  (C16_print_derives exNm (.app (.app (.var 1 2) (.app (.var 2 1) (.var 3 0))) (.var 4 3))
+    (by decide) (by decide)).1
+-- the excluded terms
+example : noImplicitArrow (.pi 3 true .int .int) = false := by decide
+example : noNegLit (.app (.var 1 0) (lit (-1))) = false := by decide
+example : printToks exNm (.pi 3 true .int .int) =
+    ["LEFT_CURLY", "INTEGER", "RIGHT_CURLY", "THIN_ARROW", "INTEGER"] := by decide
+-- `f -1` and `f - 1`: one token sequence, two texts, two terms
+example : printKinds exNm (.app (.var 1 0) (lit (-1))) = [.identifier ['f'], .minus, .integerLiteral 1] := by decide
+example : printKinds exNm (.bin .diff (.var 1 0) (lit 1)) = [.identifier ['f'], .minus, .integerLiteral 1] := by decide
+example : printTm exNm (.app (.var 1 0) (lit (-1))) = "f -1".toList := by decide
+example : printTm exNm (.bin .diff (.var 1 0) (lit 1)) = "f - 1".toList := by decide
+example : printToks exNm (.pi 3 false (lit (-1)) .int) = ["MINUS", "INTEGER_LITERAL", "THIN_ARROW", "INTEGER"] := by
+  decide
+example : printTm exNm (.pi 3 false (lit (-1)) .int) = "-1 -> int".toList := by decide
+-- an empty group prints as its body
+example : printTm exNm (.letg .nil (.var 3 0)) = "x".toList := by decide
+
+end sentence
